@@ -24,6 +24,16 @@ CLAIMS = {
     note="The real 6-bit-stride table is modelled by matchStride and compared on every dops line; that matchStride satisfies LazyOf is not yet proved (eagerMatcher is). Depth-31 trees (2 GiB validation table) are not generated.",
     technique="Lean 4 refinement proof (operational model -> spec decoder) + AST-generator correspondence",
     ref="7/C03"),
+  "C04": dict(
+    text="Lean 4: for every well-formed file, every limit >= 1 and every LazyOf lookup, draining the operational iterator over the complete file yields exactly [flags] ++ per chunk (metadata :: the chunk's numbers split into consecutive batches of `limit`) ++ [footer], then none forever, terminated; corollaries: every batch non-empty and <= limit, a chunk's batches concatenate to its numbers, the whole stream equals whole-file decompression; exact also for delta orders and chunks with n <= order. Proof: unit-level refinement (prefix-safe, sound, eager with 5 bits of slack), drain/resume lemma, batch characterisation incl. padding and body-size check, a position invariant and a decreasing measure. Tie: complete files (sparse/run-length, dense, delta, multi-chunk, GCD, legacy assets incl. the zero-count file) iterated with limits 1,2,29,30,31,100,n-1,n,n+1,1e5 and random on the implementation and on the model, compared token by token.",
+    note="as C03: matchStride's LazyOf membership is by correspondence only.",
+    technique="Lean 4 refinement proof of the iterator state machine + dops-stream correspondence",
+    ref="7/C04"),
+  "C05": dict(
+    text="Lean 4: for every well-formed file and every schedule of whole-byte writes concatenating to the file, interleaved anywhere with drains and free_compressed_memory and ending with a drain: no error, the canonical item sequence (a chunk's consecutive batches merged) equals that of write-all-then-drain (independent of the limit), the numbers concatenate to the file's numbers, the decompressor ends terminated with nothing unread; free_compressed_memory changes no later result and shifts the reported bit position by a multiple of 64 (all operations commute with erasing `freed`). Tie: every single cut of small files, every pair of cuts of tiny files, random multi-cut schedules with frees, one-byte-at-a-time feeding: canonical items and final bit position on the implementation; token-by-token comparison (partial batches and mid-body bit_idx included) with the model.",
+    note="Batch boundaries under partial data legitimately differ from the all-at-once run; the theorem and the oracle compare canonical sequences. BitWords::extend/truncate_left are modelled as bit-list append/offset.",
+    technique="Lean 4 refinement proof over write/drain/free schedules + dops-stream correspondence",
+    ref="7/C05"),
   "C06": dict(
     text="Lean 4: the specification decoder is prefix-safe (Safe for every parser of the format, incl. fuel monotonicity), hence every strict prefix (bit-granular) of a well-formed file decodes to `insufficient`; by refinement the operational simple_decompress on every strict byte prefix answers InsufficientData — never ok, never another kind — with the state unchanged, for every LazyOf lookup. (At non-byte cuts the model answers insufficient-or-corrupt; Write::write delivers whole bytes.) Tie: every truncation length of real files of every dtype on the implementation and on the model.",
     note="as C03.",
